@@ -83,6 +83,14 @@ func vpC29JudgeElection(nodes []*Node, epoch uint64, accepted []*CNode, now uint
 			}
 		}
 	}
+	// whoever asks, the removal check never hands a node itself as the
+	// candidate (second line of defence behind the election: the removal
+	// validator calls it with the proposing chain's id)
+	for id := range isAccepted {
+		if candi, err := nodes[0].checkRemovePossibility(id, now, nil); err == nil && candi != nil && candi.IdForNetwork == id {
+			fail("checkRemovePossibility(%s, epoch+%d) names the asking node itself as the removal candidate", id, now-epoch)
+		}
+	}
 	// the node elected for the removal never removes itself
 	eid := nodes[0].electSnapshotNode(common.TransactionTypeNodeRemove, now)
 	for _, n := range nodes {
